@@ -461,6 +461,18 @@ class _MethodTypeReturnInfo:
 T = TypeVar("T")
 
 
+def _is_type_of_a_literal(t: Any, or_dictionary: bool = False) -> bool:
+    """The types we give to what is written out in a query - a python value (`'abc'`, `None`),
+    a lambda, a dictionary: nobody declared any method for them."""
+    if or_dictionary and is_dataclass(t) and getattr(t, "__name__", "") == "dict_dataclass":
+        return True
+    return (
+        t is Callable
+        or t in (type(None), type(Ellipsis))
+        or getattr(builtins, getattr(t, "__name__", ""), None) is t
+    )
+
+
 def remap_by_types(
     o_stream: ObjectStream[T], var_type_mapping: Dict[str, Any], a: ast.AST
 ) -> Tuple[ObjectStream[T], ast.AST, Type]:
@@ -649,7 +661,7 @@ def remap_by_types(
 
             # A method of one of python's own value types (`'abc'.strip()`): nobody declared
             # anything for it, so there are no defaults to fill in and no type to follow.
-            if getattr(builtins, getattr(obj_type, "__name__", ""), None) is obj_type:
+            if _is_type_of_a_literal(obj_type):
                 self._found_types[node] = Any
                 return node
 
@@ -840,7 +852,13 @@ def remap_by_types(
                 if isinstance(t_node.func.value, ast.Attribute):
                     found_type = self.lookup_type(t_node.func.value.value)
                     # Nothing to do if we don't know what type the object is
-                    if found_type is not None and found_type is not Any:
+                    if (
+                        found_type is not None
+                        and found_type is not Any
+                        # (types we made up for literals - a dictionary, a python value, a
+                        # lambda - declare no parameterized methods)
+                        and not _is_type_of_a_literal(found_type, or_dictionary=True)
+                    ):
                         t_node = self.process_parameterized_method_call(
                             t_node,
                             found_type,
@@ -859,6 +877,10 @@ def remap_by_types(
             t_node = self.generic_visit(node)
             assert isinstance(t_node, ast.UnaryOp)
             operand_type = self.lookup_type(t_node.operand)
+            if isinstance(t_node.op, ast.Not):
+                operand_type = bool
+            elif operand_type is bool:
+                operand_type = int
             self._found_types[node] = operand_type
             self._found_types[t_node] = operand_type
             return t_node
@@ -869,18 +891,27 @@ def remap_by_types(
             t_left = self.lookup_type(t_node.left)
             t_right = self.lookup_type(t_node.right)
 
-            if (t_left == Any) or (t_right == Any):
-                self._found_types[node] = Any
-                self._found_types[t_node] = Any
-            elif (t_left == float) or (t_right == float):
-                self._found_types[node] = float
-                self._found_types[t_node] = float
-            elif isinstance(node.op, ast.Div):
-                self._found_types[node] = float
-                self._found_types[t_node] = float
-            else:
-                self._found_types[node] = int
-                self._found_types[t_node] = int
+            numbers = (bool, int, float)
+            text = (str, bytes)
+            result: Any = Any
+            if t_left in numbers and t_right in numbers:
+                is_float = float in (t_left, t_right) or isinstance(node.op, ast.Div)
+                result = float if is_float else int
+            elif {t_left, t_right} <= {complex, *numbers}:
+                result = complex
+            elif isinstance(node.op, ast.Add) and t_left == t_right and t_left in text:
+                # `'a' + 'b'`
+                result = t_left
+            elif isinstance(node.op, ast.Mult) and t_left in text and t_right in (bool, int):
+                # `'ab' * 2`
+                result = t_left
+            elif isinstance(node.op, ast.Mult) and t_right in text and t_left in (bool, int):
+                result = t_right
+            elif isinstance(node.op, ast.Mod) and t_left in text:
+                # `'%d jets' % n`
+                result = t_left
+            self._found_types[node] = result
+            self._found_types[t_node] = result
 
             return t_node
 
@@ -905,12 +936,16 @@ def remap_by_types(
 
             def same_dictionary(a, b) -> bool:
                 "Two dictionary literals with the same fields (each literal gets a class of its own)"
-                return (
+                if not (
                     getattr(a, "__name__", None) == "dict_dataclass"
                     and getattr(b, "__name__", None) == "dict_dataclass"
                     and is_dataclass(a)
                     and is_dataclass(b)
-                    and get_type_hints(a) == get_type_hints(b)
+                ):
+                    return False
+                h_a, h_b = get_type_hints(a), get_type_hints(b)
+                return h_a.keys() == h_b.keys() and all(
+                    h_a[k] == h_b[k] or same_dictionary(h_a[k], h_b[k]) for k in h_a
                 )
 
             final_type = Any
@@ -938,18 +973,27 @@ def remap_by_types(
                         "valid."
                     )
                 index = _slice.value
-                if len(t_node.value.elts) <= index:
+                if not isinstance(index, int):
+                    raise ValueError(
+                        f"Slices must be indexable constants only - {ast.dump(_slice)} is not "
+                        "valid."
+                    )
+                if not -len(t_node.value.elts) <= index < len(t_node.value.elts):
                     raise ValueError(f"Index {index} out of range for {ast.dump(node.value)}")
                 self._found_types[node] = self.lookup_type(t_node.value.elts[index])
                 self._found_types[t_node] = self.lookup_type(t_node.value.elts[index])
             elif ((dc := self.lookup_type(t_node.value)) is not None) and is_dataclass(dc):
                 dc_types = get_type_hints(dc)
-                _slice = ast.literal_eval(t_node.slice)
-                if _slice not in dc_types:
-                    raise ValueError(
-                        f"Key {ast.unparse(t_node.slice)} not found in dataclass/dictionary {dc}"
-                    )
-                self._found_types[node] = dc_types[_slice]
+                if isinstance(t_node.slice, ast.Constant):
+                    _slice = t_node.slice.value
+                    if _slice not in dc_types:
+                        raise ValueError(
+                            f"Key {ast.unparse(t_node.slice)} not found in dataclass/dictionary {dc}"
+                        )
+                    self._found_types[node] = dc_types[_slice]
+                else:
+                    # A key worked out when the query runs: nothing known about the value
+                    self._found_types[node] = Any
             else:
                 inner_type = unwrap_iterable(self.lookup_type(t_node.value))
                 self._found_types[node] = inner_type
